@@ -114,3 +114,16 @@ package sqlite
 //@     before call builtin.append args sl, add : assert len(add) == 1 && typeIs(add[0], "squirrel.Eq") && parts == u && typeIs(as(add[0], "squirrel.Eq")["user_object_type"], "string") && as(as(add[0], "squirrel.Eq")["user_object_type"], "string") == pt && as(as(add[0], "squirrel.Eq")["user_object_id"], "string") == pi && (u.GetRelation() != "" ==> inDom(as(add[0], "squirrel.Eq"), "user_relation") && as(as(add[0], "squirrel.Eq")["user_relation"], "string") == u.GetRelation()) && (u.GetRelation() == "" ==> !inDom(as(add[0], "squirrel.Eq"), "user_relation"))
 //@     before call (squirrel.SelectBuilder).Where args _, pred : assert wheres == 0 ==> typeIs(pred, "squirrel.Eq") && as(as(pred, "squirrel.Eq")["store"], "string") == store && typeIs(as(pred, "squirrel.Eq")["store"], "string") && as(as(pred, "squirrel.Eq")["object_type"], "string") == filter.ObjectType && as(as(pred, "squirrel.Eq")["relation"], "string") == filter.Relation
 //@     after call (squirrel.SelectBuilder).Where : wheres = wheres + 1
+
+// ------------------------------------------------------------------ C19: no-panic sweep (thin, safety-only contracts)
+// every index and slice expression of these functions is in range for ALL inputs, with no precondition (generated by
+// bin/sweepgen, kept because every obligation discharges; callees without contract are treated as arbitrary)
+//@ func (*Datastore).selectExistingRowsForWrite(recv, a0, a1, a2, a3, a4) (r0)
+//@   property C19
+//@   option nosafety
+//@   option safety slice,index
+
+//@ func PrepareDSN(a0) (r0, r1)
+//@   property C19
+//@   option nosafety
+//@   option safety slice,index
